@@ -15,6 +15,7 @@ From V Require Import Gen.NodesXml Model.Xml Spec.XmlLex.
 From V Require Import Gen.Cli Model.CliModel Spec.CliDoc.
 From V Require Import Gen.Tagfilter Model.Tagfilter Spec.GfmFilter.
 From V Require Import Spec.Shape.
+From V Require Import Gen.Consts Model.Caps.
 Extraction Language OCaml.
 Set Extraction KeepSingleton.
 
@@ -158,4 +159,8 @@ Extraction "model.ml"
   Shape.s3
   Shape.s6
   Shape.s6w
+  Caps.document_lookups
+  Caps.feed_rows
+  Caps.open_header
+  Caps.row_cells
 .
